@@ -33,7 +33,6 @@ pub struct Scanner<A: Alphabet, M: AsRefPssm<A>, S: AsRefSeq<A, C>, C: PositiveL
 /// `a > b` as Rust evaluates it through `PartialOrd::partial_cmp`
 pub open spec fn sgt<T: PartialOrd>(a: T, b: T) -> bool { a.partial_cmp_spec(&b) == Some(core::cmp::Ordering::Greater) }
 
-pub open spec fn sat255(x: int) -> int { if x > 255 { 255 } else { x } }
 /// the byte a real score maps to (DiscreteMatrix::scale); its float arithmetic is uninterpreted (A-F4)
 pub uninterp spec fn scale_spec(offset: f32, factor: f32, score: f32) -> u8;
 pub uninterp spec fn f32_is_nan(x: f32) -> bool;
